@@ -577,11 +577,11 @@ class _State:
                 r = m2.digest_glucose(src)
                 head = "returned"
                 ex["text_ok"] = not (isinstance(r, str) and r.startswith("Metabolic Failure"))
-                ex["text"] = [ord(c) for c in r[:4000]] if isinstance(r, str) else None
+                ex["text"] = text_codes(r)
                 # reference: str() of Python's value of the text (the legacy entry point is the math pathway)
                 try:
                     ref = eval(compile(src, "<ref>", "eval"), {"__builtins__": {}}, dict(M.Mitochondria.SAFE_FUNCTIONS))
-                    ex["ref_text"] = [ord(c) for c in str(ref)[:4000]]
+                    ex["ref_text"] = text_codes(str(ref))
                 except BaseException as e:  # noqa
                     ex["ref_text"] = None
                     ex["ref_raise"] = type(e).__name__
@@ -600,7 +600,7 @@ class _State:
                     ex["agent"] = "returned"
                     pl = getattr(ap, "payload", None)
                     if isinstance(pl, str) and pl.startswith("Calculated: "):
-                        ex["agent_text"] = [ord(c) for c in pl[len("Calculated: "):][:4000]]
+                        ex["agent_text"] = text_codes(pl[len("Calculated: "):])
                 except BaseException as e:  # noqa
                     ex["agent"] = "raised:" + type(e).__name__
             except BaseException as e:  # noqa
@@ -689,7 +689,7 @@ class _State:
             pw = None if forced == "auto" else getattr(M.MetabolicPathway, PATHS[forced])
             tool_fns = {}
             for name, caps in self.tools:
-                tool_fns[name] = (lambda *a, _n=name, **k: ("tool", _n, a, tuple(k.items())))
+                tool_fns[name] = concrete_tool(name)
                 m2.register_function(name, tool_fns[name], required_capabilities=self._caps(caps))
             ex = {}
             try:
@@ -710,10 +710,10 @@ class _State:
                     ex["agent"] = "returned"
                     if isinstance(pl, str) and pl.startswith("Calculated: ") \
                             and not pl[len("Calculated: "):].startswith("Metabolic Failure"):
-                        ex["agent_ok_text"] = [ord(c) for c in pl[len("Calculated: "):][:4000]]
+                        ex["agent_ok_text"] = text_codes(pl[len("Calculated: "):])
                         try:
                             ref = eval(compile(src, "<ref>", "eval"), {"__builtins__": {}}, dict(table))
-                            ex["agent_ref_text"] = [ord(c) for c in str(ref)[:4000]]
+                            ex["agent_ref_text"] = text_codes(str(ref))
                         except BaseException as e:  # noqa
                             ex["agent_ref_text"] = None
                             ex["agent_ref_raise"] = type(e).__name__
@@ -779,6 +779,14 @@ class _State:
         return "bad-op", None
 
 
+def concrete_tool(name):
+    """recording tools of the concrete stream: `first` hands back its first argument as it is (what a tool returns is a
+    value the caller receives, too); every other tool answers with everything it was given"""
+    if name == "first":
+        return lambda *a, **k: a[0] if a else (next(iter(k.values())) if k else None)
+    return lambda *a, _n=name, **k: ("tool", _n, a, tuple(k.items()))
+
+
 GRAMMAR_NODES = ("Expression", "Constant", "BinOp", "UnaryOp", "Call", "Name", "List", "Tuple", "Compare", "BoolOp",
                  "IfExp", "Load", "keyword")
 
@@ -805,28 +813,103 @@ def in_grammar(src: str, table) -> bool:
     return True
 
 
+BIG_CANON = 2000      # beyond this many characters / hex digits / elements a value travels as (size, digest, ends)
+
+
+def _digest(b: bytes) -> str:
+    import hashlib
+    return hashlib.sha256(b).hexdigest()
+
+
+_PLAIN = (int, float, str, bool, type(None), bytes)
+
+
+def _plain(v, depth=0) -> bool:
+    """numbers / strings / booleans / None / bytes and (a few distinct, repeated) nested lists / tuples of those.
+    No `id()` here: the worker's audit hook sees every call of it."""
+    ts = set(map(type, v))
+    if not all(t in _PLAIN or t in (list, tuple) for t in ts):
+        return False
+    if list in ts or tuple in ts:
+        if depth >= 3:
+            return False
+        seen = []
+        for x in v:
+            if type(x) in (list, tuple):
+                for y in seen:
+                    if x is y:
+                        break
+                else:
+                    if len(seen) >= 16 or not _plain(x, depth + 1):
+                        return False
+                    seen.append(x)
+    return True
+
+
 def canon(v):
-    """type + value, NaN-safe, as a JSON-able structure"""
+    """type + value, NaN-safe, as a JSON-able structure.  The WHOLE value counts: big values (long strings, huge ints,
+    long lists) travel as size + SHA-256 of their full content + both ends, so that a value cut short, padded or altered
+    anywhere on its way to the caller differs from Python's."""
     import math
     if isinstance(v, bool):
         return ["bool", v]
     if isinstance(v, int):
-        return ["int", hex(v)]
+        h = hex(v)
+        if len(h) > BIG_CANON:
+            return ["int", "big", v.bit_length(), _digest(h.encode()), h[:24], h[-24:]]
+        return ["int", h]
     if isinstance(v, float):
         return ["float", "nan" if math.isnan(v) else v.hex()]
     if isinstance(v, complex):
         return ["complex", repr(v)]
     if isinstance(v, str):
+        if len(v) > BIG_CANON:
+            return ["str", "big", len(v), _digest(v.encode("utf-8", "surrogatepass")),
+                    [ord(c) for c in v[:24]], [ord(c) for c in v[-24:]]]
         return ["str", [ord(c) for c in v]]
     if isinstance(v, bytes):
+        if len(v) > BIG_CANON:
+            return ["bytes", "big", len(v), _digest(v), list(v[:24]), list(v[-24:])]
         return ["bytes", list(v)]
     if isinstance(v, (list, tuple)):
+        if len(v) > BIG_CANON:
+            import hashlib
+            if _plain(v):
+                # numbers / strings / booleans / None / nested lists and tuples of those: repr() is exact on them (floats
+                # round-trip, 1 / 1.0 / True differ, nan is 'nan') and runs at C speed
+                try:
+                    return [type(v).__name__, "big", len(v), _digest(repr(v).encode("utf-8", "surrogatepass")),
+                            [canon(x) for x in v[:6]], [canon(x) for x in v[-6:]]]
+                except ValueError:      # an int beyond the str-conversion limit inside
+                    pass
+            # element-wise digest (elements are canonicalised first, so nested big values stay cheap)
+            hs = hashlib.sha256()
+            memo = {}
+            for x in v:
+                k = id(x)
+                if k not in memo:
+                    memo[k] = json.dumps(canon(x)).encode()
+                hs.update(memo[k])
+                hs.update(b";")
+            return [type(v).__name__, "big", len(v), hs.hexdigest(), [canon(x) for x in v[:6]], [canon(x) for x in v[-6:]]]
         return [type(v).__name__, [canon(x) for x in v]]
     if v is None:
         return ["None"]
     if callable(v):
         return ["callable", getattr(v, "__name__", "?")]
     return [type(v).__name__, repr(v)]
+
+
+def text_codes(r):
+    """a text handed to the caller (digest_glucose, the agent's payload), as code points; the WHOLE text counts: beyond
+    4000 characters it travels as its first 200 code points + its length (in words) + the SHA-256 of all of it"""
+    if not isinstance(r, str):
+        return None
+    if len(r) <= 4000:
+        return [ord(c) for c in r]
+    import hashlib
+    return [ord(c) for c in r[:200] + f" ... <{len(r)} characters, sha256 follows> "] + \
+        list(hashlib.sha256(r.encode("utf-8", "surrogatepass")).digest())
 
 
 class _Prof:
@@ -1266,7 +1349,8 @@ def concrete_lit(rng):
         return rng.choice(["true", "false"])
     if rng.random() < 0.10:      # boundary operands: float range, huge ints, non-finite values
         return rng.choice(["1e308", "-1e308", "1e200", "10**400", "-(10**400)", "5000", "999", "inf", "-inf", "(inf - inf)",
-                           "1e-320", "5e-324", "2.0", "9.5", "0.5", "-8", "(1/3)", "-1.5", "1e16", "2**53 + 1", "-0.0"])
+                           "1e-320", "5e-324", "2.0", "9.5", "0.5", "-8", "(1/3)", "-1.5", "1e16", "2**53 + 1", "-0.0",
+                           "'ab' * 3000", "'x' * 4097", "[0] * 5000", "2 ** 4097", "(1, 'a') * 2500"])
     return rng.choice(["0", "1", "2", "3", "7", "-1", "2.5", "0.0", "True", "False", "'a'", "'ab'", "''", "'true'",
                        "'False x'", "10", "None", "1e308", "0.1", "'1'", "'11'", "-0.0", "5", "[1, 2]", "(3,)"])
 
@@ -1297,6 +1381,86 @@ def gen_concrete(rng, d, fn_names, const_names):
     kw = rng.choice([[], [], [], ["ndigits=1"], ["base=2"], ["start=1"], ["key=abs"], ["default=0"], ["ndigits=-1"],
                      ["ndigits=1", "ndigits=2"]] + [[]] * 6)
     return f"{f}({', '.join(args + kw)})"
+
+
+# large VALUES (not large texts): what the caller receives — result.atp.value, the text digest_glucose returns, the
+# agent's payload — is the whole value Python computes, whatever its size.  Sizes sit around the powers of two a
+# "reasonable" cap would pick (4 Ki, 8 Ki, 64 Ki, 1 Mi) and around the length limit of the TEXT (10 000).
+BIG_SIZES = [4095, 4096, 4097, 5000, 8192, 8193, 10001, 65535, 65536, 65537, 100000, 1048577]
+BIG_SIZES_QUICK = [4096, 4097, 5000, 8193, 65537, 1048577]
+
+
+def big_forms(n: int, max_len: int = 10000):
+    """[(kind, source, neutral element of the kind)]: expressions of the allowed subset whose VALUE has size n
+    (characters, elements, bits)"""
+    ns = min(n, 262145)      # element-wise values (lists, tuples) and decimal powers stay below a quarter million
+    out = [("str", f"'q' * {n}", "''"),
+           ("str", f"'ab' * {n // 2}" + (" + 'c'" if n % 2 else ""), "''"),
+           ("str", f"'a' * {n // 3} + 'b' * {n - n // 3}", "''"),
+           ("str", f"'%s|%s' % ('a' * {(n - 1) // 2}, 'b' * {n - 1 - (n - 1) // 2})", "''"),
+           ("str", f"'%x' % (2 ** {4 * (n - 1)})", "''"),
+           ("str", f"'\\u00e9\\n' * {n // 2}", "''"),
+           ("str", f"{n // 2} * 'ab'", "''"),
+           ("list", f"[0] * {ns}", "[]"),
+           ("list", f"[1, 'a', 2.5, True] * {ns // 4}", "[]"),
+           ("list", f"[[1, 2], (3,)] * {ns // 8}", "[]"),
+           ("tuple", f"(1, 2.5) * {ns // 2}", "()"),
+           ("tuple", f"('ab' * 3000, 0) * {max(1, n // 4096)}", "()"),
+           ("int", f"2 ** {n}", "0"),
+           ("int", f"-(2 ** {n}) + 1", "0"),
+           ("int", f"10 ** {ns // 3}", "0"),
+           ("bytes", f"b'ab' * {n // 2}", "b''")]
+    if n + 2 <= max_len - 60:       # the value written out as ONE literal ("never rewrites literal contents")
+        out += [("str", "'" + "x" * n + "'", "''"), ("str", '"' + "y z" * (n // 3) + "w" * (n % 3) + '"', "''"),
+                ("int", "1" + "0" * (min(n, 4200) - 1), "0")]
+    return out
+
+
+# positions the big value can take on its way to the top: the value itself, the chosen branch of a conditional, the
+# deciding / last operand of and / or, the result of an allow-listed call, an element of a list / tuple, an operand
+BIG_WRAPS = ["{b}", "({b})", "{b} if 1 < 2 else {z}", "{z} if 0 else {b}", "{z} or {b}", "1 and {b}", "{b} or {z}",
+             "max({b}, {z})", "max([{z}, {b}])", "min([{b}])", "({b}, 1)", "[{b}]", "{b} + {z}", "{z} + {b}", "{b} * 1",
+             "len({b})", "{b} == {b}", "{b} != {z}", "sum([{b}], {z})"]
+
+
+def big_text(rng, max_len: int = 10000, sizes=None):
+    """one random big-value expression -> (kind, source)"""
+    n = rng.choice(sizes or BIG_SIZES)
+    kind, b, z = rng.choice(big_forms(n, max_len))
+    src = rng.choice(BIG_WRAPS[:3] + BIG_WRAPS).format(b=b, z=z)
+    return (kind, src) if len(src) <= max_len else (kind, b)
+
+
+_GEN_NS = None
+
+
+def str_raises_of(src: str) -> bool:
+    """does rendering Python's value of `src` as text raise (an int of more than 4300 digits)?  Computed by CPython in
+    the harness process for hand-made cheap texts; an input of the `cdg` line, like the parser's outcome is"""
+    global _GEN_NS
+    if _GEN_NS is None:
+        import math
+        _GEN_NS = {"max": max, "min": min, "len": len, "abs": abs, "sum": sum, "int": int, "float": float,
+                   "round": round, "bool": bool, "factorial": math.factorial, "pow": math.pow}
+    try:
+        v = eval(compile(src, "<gen>", "eval"), {"__builtins__": {}}, dict(_GEN_NS))
+    except Exception:  # noqa
+        return False
+    try:
+        str(v)
+        return False
+    except Exception:  # noqa
+        return True
+
+
+def long_const(n: int, ch: str = "x") -> str:
+    return "'" + ch * n + "'"
+
+
+# tracer world: long string CONSTANTS in positions where no real operator touches them (the model's value of a constant
+# is its content-addressed handle, so a constant cut short anywhere between the parser and the caller is a disagreement)
+LONGCONST_TRACER = ["{c}", "({c} if t0 else {d})", "(t0 or {c})", "[{c}, t0]", "f0({c}, k={d})", "(t1, {c})",
+                    "({c} if t0 else t1)", "f1(k={c})", "(t0 and {c})"]
 
 
 def cheap(src: str) -> bool:
@@ -1347,6 +1511,8 @@ def cheap(src: str) -> bool:
                     raise OverflowError
                 if (seqish(n.left) and 10 ** 4 < b) or (seqish(n.right) and 10 ** 4 < a):
                     raise OverflowError     # sequence repetition
+                if (seqish(n.left) or seqish(n.right)) and a * b > 3 * 10 ** 6:
+                    raise OverflowError     # ... of something that is already long
                 return max(a * b, a, b)
             if isinstance(n.op, ast.Add):
                 return a + b
